@@ -248,3 +248,13 @@ def shrink(case):
             ok = all(g in phys.admissible_grids(n2) for g in case['grids'])
             if ok:
                 yield c
+
+
+_gen_plain = gen
+
+
+def gen(rng, tier, idx):
+    case = _gen_plain(rng, tier, idx)
+    if True:
+        cm.maybe_bystanders(rng, case['sched'], case['P'])
+    return case
